@@ -859,12 +859,12 @@ theorem fuelInline_le (e : Inline Bytes) (hv : validInline e = true) :
     | some pn =>
       obtain ⟨pos, named⟩ := pn
       simp only [validInline, Bool.and_eq_true] at hv
-      have := fuelArgs_le pos hv.1.1.2 named
+      have := fuelArgs_le pos hv.1.1.2 named (fuelNamed named) (fuelNamed_le named hv.1.2)
       simp only [fuelInline, inlineBytes, List.length_cons, List.length_append]
       omega
   | fn id pos named =>
     simp only [validInline, Bool.and_eq_true] at hv
-    have := fuelArgs_le pos hv.1.1.2 named
+    have := fuelArgs_le pos hv.1.1.2 named (fuelNamed named) (fuelNamed_le named hv.1.2)
     have hid : 1 ≤ id.length := by
       have := validIdent_ne_nil hv.1.1.1.1
       cases id <;> simp_all
@@ -878,26 +878,44 @@ theorem fuelInline_le (e : Inline Bytes) (hv : validInline e = true) :
       simp only [fuelInline, fuelInner, inlineBytes, innerBytes, List.length_cons, List.length_append, List.length_nil]
       omega
 
-theorem fuelArgs_le (xs : List (Inline Bytes)) (hv : validInl xs = true) (named : List (Bytes × Inline Bytes)) :
-    fuelArgs xs + named.length ≤ 2 * (posTail xs named.isEmpty (namedTail named)).length + 1 := by
+/-- `fn` = the fuel of the named arguments, bounded by their text (`fuelNamed_le`, passed as a hypothesis so
+that the mutual induction stays structural) -/
+theorem fuelArgs_le (xs : List (Inline Bytes)) (hv : validInl xs = true) (named : List (Bytes × Inline Bytes))
+    (fn : Nat) (hfn : fn + 2 ≤ 2 * (namedTail named).length) :
+    fuelArgs xs + fn ≤ 2 * (posTail xs named.isEmpty (namedTail named)).length + 1 := by
   cases xs with
   | nil =>
-    have := namedTail_length named
     simp only [fuelArgs, posTail]
     omega
   | cons x xs =>
     simp only [validInl, Bool.and_eq_true] at hv
     have h1 := fuelInline_le x hv.1
-    have h2 := fuelArgs_le xs hv.2 named
+    have h2 := fuelArgs_le xs hv.2 named fn hfn
     rw [posTail]
     simp only [fuelArgs, List.length_append]
     by_cases hl : (xs.isEmpty && named.isEmpty) = true
     · simp only [Bool.and_eq_true, List.isEmpty_iff] at hl
       obtain ⟨rfl, rfl⟩ := hl
-      simp [fuelArgs, posTail, namedTail]
+      simp [fuelArgs, posTail, namedTail] at h2 hfn ⊢
       omega
     · simp only [hl, Bool.false_eq_true, if_false, List.length_cons, List.length_nil]
       omega
+
+theorem fuelNamed_le (named : List (Bytes × Inline Bytes)) (hv : validNamed named = true) :
+    fuelNamed named + 2 ≤ 2 * (namedTail named).length := by
+  cases named with
+  | nil => simp [fuelNamed, namedTail]
+  | cons x xs =>
+    obtain ⟨n, v⟩ := x
+    simp only [validNamed, Bool.and_eq_true] at hv
+    have h1 := fuelInline_le v hv.1.2
+    have h2 := fuelNamed_le xs hv.2
+    have hn : 1 ≤ n.length := by
+      have := validIdent_ne_nil hv.1.1.1
+      cases n <;> simp_all
+    rw [namedTail]
+    simp only [fuelNamed, List.length_append, List.length_cons, List.length_nil]
+    omega
 end
 
 theorem fuelElem_le (e : PatElem Bytes) (hv : validElem e = true) : fuelElem e + 1 ≤ 3 * (elemBytes e).length := by
